@@ -50,6 +50,43 @@ Theorem C20_panel_points : forall (V : Type) off (rows : list (srow * V)) k d d'
 Proof. exact @panel_points_spec. Qed.
 Print Assumptions C20_panel_points.
 
+(* the panel as drawn under x-limits keeps the cycles whose side extrema lie in the view (s0 = first sample,
+   n samples).  interp=True: a point for every cycle lying entirely inside the view, at its centre, with its
+   value — and nothing else *)
+Theorem C20_panel_shows_every_cycle_in_view : forall (V : Type) s0 n (rows : list (srow * V)) r v,
+  In (r, v) rows -> (s0 <= s_last r)%Z -> (s_next r <= s0 + Z.of_nat n - 1)%Z ->
+  In ((s_center r - s0)%Z, v) (panel_interp n s0 rows).
+Proof. exact @panel_interp_complete. Qed.
+Print Assumptions C20_panel_shows_every_cycle_in_view.
+
+Theorem C20_panel_points_are_cycle_centres : forall (V : Type) s0 n (rows : list (srow * V)) q v,
+  In (q, v) (panel_interp n s0 rows) ->
+  exists r, In (r, v) rows /\ q = (s_center r - s0)%Z /\ (s0 <= s_last r)%Z /\ (s_next r <= s0 + Z.of_nat n - 1)%Z.
+Proof. exact @panel_interp_sound. Qed.
+Print Assumptions C20_panel_points_are_cycle_centres.
+
+(* interp=False (steps): the value of every cycle lying entirely inside the view is drawn from its last to its
+   next side extremum — and nothing else *)
+Theorem C20_panel_steps_span_every_cycle_in_view : forall (V : Type) s0 n (rows : list (srow * V)) r v,
+  In (r, v) rows -> (s0 <= s_last r)%Z -> (s_next r <= s0 + Z.of_nat n - 1)%Z ->
+  In ((s_last r - s0)%Z, v) (panel_steps n s0 rows) /\ In ((s_next r - s0)%Z, v) (panel_steps n s0 rows).
+Proof. exact @panel_steps_complete. Qed.
+Print Assumptions C20_panel_steps_span_every_cycle_in_view.
+
+Theorem C20_panel_steps_are_cycle_sides : forall (V : Type) s0 n (rows : list (srow * V)) q v,
+  In (q, v) (panel_steps n s0 rows) ->
+  exists r, In (r, v) rows /\ (q = (s_last r - s0)%Z \/ q = (s_next r - s0)%Z) /\
+            (s0 <= s_last r)%Z /\ (s_next r <= s0 + Z.of_nat n - 1)%Z.
+Proof. exact @panel_steps_sound. Qed.
+Print Assumptions C20_panel_steps_are_cycle_sides.
+
+(* with no x-limits (every cycle inside the recording) no cycle is left out of a panel *)
+Theorem C20_panel_without_limits_is_the_whole_table : forall (V : Type) n off (rows : list (srow * V)),
+  (forall rv, In rv rows -> (off <= s_last (fst rv))%Z /\ (s_next (fst rv) <= off + Z.of_nat n - 1)%Z) ->
+  panel_rows n off rows = rows.
+Proof. exact @panel_rows_all. Qed.
+Print Assumptions C20_panel_without_limits_is_the_whole_table.
+
 (* the repaired window offset equals the sample index: finite sweep, bound stated *)
 Theorem C20_offset_is_the_sample_index_on_grid : forall fs k,
   In fs [50; 64; 100; 128; 200; 250; 500; 1000]%float -> k < 2000 ->
